@@ -18,7 +18,8 @@ RULE = ('row-stochastic matrices from random sparse count matrices with 2..8 sta
         'support restriction) for every accepted matrix; clause 3: ValueError iff strict mode and not '
         'ergodic. Cases where an exact power entry is within 1e-12 of the 1e-8 threshold are skipped '
         '(counted). Non-trivial: >= 3 states and reducible/periodic/extremal, or ergodic with a zero entry.'
-        ' Added classes: one ndarray refilled in place between two calls, Fortran/transposed/strided layouts of the matrix (same result required where the vector is unique), nearly symmetric count matrices with equal row totals, closed classes with a state of stationary probability 1e-6..1e-4.')
+        ' Added classes: one ndarray refilled in place between two calls, Fortran/transposed/strided layouts of the matrix (same result required where the vector is unique), nearly symmetric count matrices with equal row totals, closed classes with a state of stationary probability 1e-6..1e-4.'
+        ' Later: the flag as NumPy bool / integer, read-only matrices.')
 TRUSTED = ['LAPACK eig chooses the eigenvector (degenerate eigenspaces are only checked relationally)',
            'uniqueness is proved for matrices with an entrywise positive power (stationary_unique_thm); for a '
            'restricted non-ergodic branch the unique solution is certified per case by the exact solver']
